@@ -183,20 +183,31 @@ Theorem C04_total_wait_refuted_stalled_auth :
 Proof. exact total_wait_refuted_stalled_auth. Qed.
 
 (* ---- segmentation ------------------------------------------------------------------------------ *)
-(* What one rfbProcessClientMessage call does - the resulting state and every effect except the waits
-   (callbacks, allocations, replies, closing) - depends only on the byte stream (and on whether it ends
-   with an orderly shutdown), not on how it is cut into TCP segments. *)
+(* What the server does with a connection depends only on the byte stream (and on whether it ends with an
+   orderly shutdown), not on how it is cut into TCP segments nor on the pauses between them, as long as the
+   silence accumulated since the last segment stays below the client-wait time ([rbenign]).
+   Per connection: the event loop makes the same sequence of rfbProcessClientMessage calls, each with the same
+   message type, resulting state and effects other than waits (callbacks, allocations, replies, closing). *)
+Theorem C04_segmentation_conn : forall o_corr_f o_scale o_inflate o_pw c s r1 r2,
+  rbenign (timeout_of c) r1 -> rbenign (timeout_of c) r2 -> view r1 = view r2 ->
+  map obs_nw (fst (fst (fst (run_conn o_corr_f o_scale o_inflate o_pw c (conn_fuel r1) s r1)))) =
+  map obs_nw (fst (fst (fst (run_conn o_corr_f o_scale o_inflate o_pw c (conn_fuel r2) s r2)))) /\
+  snd (fst (fst (run_conn o_corr_f o_scale o_inflate o_pw c (conn_fuel r1) s r1))) =
+  snd (fst (fst (run_conn o_corr_f o_scale o_inflate o_pw c (conn_fuel r2) s r2))).
+Proof. exact segmentation_conn. Qed.
+
+(* per call *)
 Theorem C04_segmentation : forall o_corr_f o_scale o_inflate o_pw c s r1 r2,
-  rbenign r1 -> rbenign r2 -> view r1 = view r2 ->
+  rbenign (timeout_of c) r1 -> rbenign (timeout_of c) r2 -> view r1 = view r2 ->
   fst (fst (process_message o_corr_f o_scale o_inflate o_pw c s r1)) =
   fst (fst (process_message o_corr_f o_scale o_inflate o_pw c s r2)) /\
   nowaits (snd (process_message o_corr_f o_scale o_inflate o_pw c s r1)) =
   nowaits (snd (process_message o_corr_f o_scale o_inflate o_pw c s r2)).
 Proof. exact segmentation_msg. Qed.
 Example C04_segmentation_nonvacuous :
-  let r1 := mkReader [] [EData [4; 1; 0; 0]; EData [0; 0; 0; 65]; EEof] false false false false in
-  let r2 := mkReader [4] [EData [1]; EData [0; 0; 0; 0; 0]; EData [65]; EEof] false false false false in
-  rbenign r1 /\ rbenign r2 /\ view r1 = view r2.
+  let r1 := mkReader [] [EData [4; 1; 0; 0]; EPause 19999; EData [0; 0; 0; 65]; EEof] false false false false in
+  let r2 := mkReader [4] [EData [1]; EPause 5; EPause 7; EData [0; 0; 0; 0; 0]; EData [65]; EEof] false false false false in
+  rbenign 20000 r1 /\ rbenign 20000 r2 /\ view r1 = view r2.
 Proof. exact segmentation_nonvacuous. Qed.
 
 (* ---- connection set-up: the 4-byte peek of webSocketsCheck -------------------------------------- *)
